@@ -800,6 +800,47 @@ fn check_field_identifiers(file: &File) -> Result<(), Diagnostics> {
     diagnostics.err_or(())
 }
 
+/// Check field identifiers across packet scopes, once groups are inlined.
+/// The scope of a field identifier extends to the derived declarations,
+/// and the fields of a group belong to the scope of the declaration using it.
+/// Raises error diagnostics for the following cases:
+///      - duplicate field identifier (inherited, or through a group)
+fn check_scope_field_identifiers(file: &File, scope: &Scope) -> Result<(), Diagnostics> {
+    let mut diagnostics: Diagnostics = Default::default();
+    for decl in &file.declarations {
+        let mut parent_scope = HashMap::new();
+        for field in scope.iter_parent_fields(decl) {
+            if let Some(id) = field.id() {
+                parent_scope.insert(id.to_string(), field);
+            }
+        }
+        let mut local_scope = HashMap::new();
+        for field in decl.fields() {
+            let Some(id) = field.id() else { continue };
+            let prev = local_scope.insert(id.to_string(), field).or(parent_scope.get(id).copied());
+            if let Some(prev) = prev {
+                diagnostics.push(
+                    Diagnostic::error()
+                        .with_code(ErrorCode::DuplicateFieldIdentifier)
+                        .with_message(format!(
+                            "redeclaration of {} field identifier `{}`",
+                            field.kind(),
+                            id
+                        ))
+                        .with_labels(vec![
+                            field.loc.primary(),
+                            prev.loc
+                                .secondary()
+                                .with_message(format!("`{id}` is first declared here")),
+                        ]),
+                )
+            }
+        }
+    }
+
+    diagnostics.err_or(())
+}
+
 /// Check enum declarations.
 /// Raises error diagnostics for the following cases:
 ///      - duplicate tag identifier
@@ -1936,6 +1977,7 @@ pub fn analyze(file: &File) -> Result<File, Diagnostics> {
     let mut file = inline_groups(&file)?;
     desugar_flags(&mut file);
     let scope = Scope::new(&file)?;
+    check_scope_field_identifiers(&file, &scope)?;
     check_decl_constraints(&file, &scope)?;
     let schema = Schema::new(&file);
     check_field_offsets(&file, &scope, &schema)?;
